@@ -378,6 +378,18 @@ def _derive_S(sc, w, info):
         return s if rng.random() < 0.7 else _perturb(rng, s)
     else:
         s = os.path.relpath(w.p(tgt), w.p(base))
+    if sc['mode'] == 'require' and sc['style'] == 'abs':
+        # an absolute string survives the join with the requiring file's
+        # directory only under an entry that starts with the placeholder
+        lp = _effective_lua_path(sc)
+        entries = [e for e in lp.split(';') if e.startswith('?')] or ['?']
+        suf = entries[sc['aim_index'] % len(entries)][1:]
+        full = '$ROOT/' + tgt
+        if suf and '?' not in suf and full.endswith(suf):
+            full = full[:-len(suf)]
+        elif '.' in os.path.basename(full) and rng.random() < 0.5:
+            full = full[:full.rfind('.')]
+        return full if rng.random() < 0.8 else _perturb(rng, full)
     if sc['mode'] == 'require':
         # aim so that some load-path entry expands to the target: strip the
         # suffix that follows the last `?` of a seeded entry
